@@ -224,9 +224,11 @@ func (w *W) startDecLoop(arr *ArrCtx, loop *Loop, body *ast.BlockStmt) {
 	// allocation: was the collection made with this count?
 	k := &arr.node.K
 	size, made := arr.made[loop.coll.key()]
+	arr.node.MakePos = arr.makePos[loop.coll.key()]
 	if !made {
 		if mk, ok := w.lastMade[loop.coll.key()]; ok {
 			size, made = mk.size, true
+			arr.node.MakePos = mk.pos
 		}
 	}
 	if !made {
